@@ -14,14 +14,14 @@ Check c16_every_requestable_item_is_dispatched :
   forallb (fun m => match assoc m macro_items with Some its => forallb dispatched its | None => false end) builder_macros = true.
 Print Assumptions c16_every_requestable_item_is_dispatched.
 
-(* for the items in proved_items (ENVELOPE, FLAGS, INTERNALDATE, MODSEQ, RFC822, RFC822.SIZE, RFC822.TEXT, UID, X-GM-MSGID, X-GM-LABELS; also BODY[section]<origin>, which the builder does not request) and every
+(* for the items in proved_items (ENVELOPE, FLAGS, INTERNALDATE, MODSEQ, RFC822, RFC822.SIZE, RFC822.TEXT, UID, X-GM-MSGID, X-GM-LABELS, BODY with body structures nested below 32 levels; also BODYSTRUCTURE and BODY[section]<origin>, which the builder does not request) and every
    combination of them: every conformant reply, with any message data, parses and returns exactly the values sent *)
 Theorem c16_reply_parses : forall v w, enc_fetch v w -> forall rest, parse (w ++ rest) = ROk rest v (nlen w).
 Proof. exact reply_parses. Qed.
 Check c16_reply_parses : forall v w, enc_fetch v w -> forall rest, parse (w ++ rest) = ROk rest v (nlen w).
 Print Assumptions c16_reply_parses.
 
-(* every attribute of the builder is either covered by that theorem or listed as not yet proved (differential only) *)
+(* every attribute of the builder is covered by that theorem (not_yet_proved is empty) *)
 Theorem c16_items_partition :
   forallb (fun a => existsb (String.eqb a) (map fst proved_items ++ not_yet_proved)) builder_attrs = true.
 Proof. exact items_partition. Qed.
